@@ -107,6 +107,7 @@ class C16(Prop):
                             cfg["select"] = [rng.choice(plain)]                     # only a plain input, in whatever collection type
                         cfg["selectAsTuple"] = rng.random() < 0.5
                         cfg["selectAsSet"] = len(cfg["select"]) == 1 and rng.random() < 0.5
+                        cfg["selectAs"] = rng.choice([None, None, "keys", "gen"])      # ... dict keys, a generator: names all the same
                     ops["rtselect"] = 1
             cfg["onMissing"] = rng.choice(["ignore", "warn", "error"])
             cfg["errMode"] = rng.choice(["raise", "continue"])
